@@ -14,6 +14,7 @@
 From Coq Require Import List Bool Ascii Arith NArith.
 From TxVerif Require Import Lib.Bytes Spec.Ctl Model.CtlTypes Model.CtlProto
   Proofs.CtlParse Proofs.CtlItem Proofs.CtlInv Proofs.CtlEvents.
+From TxVerif Require Import Spec.CtlOracle Proofs.CtlRefine Proofs.CtlRefine3.
 Import ListNotations.
 
 Theorem C02_event_is_routed_to_notify : forall lbehs s i,
@@ -41,6 +42,22 @@ Theorem C02_unsubscribed_event_invisible : forall lbehs s i,
   lines_received lbehs s (render_lines i) = (s, [], true).
 Proof. exact event_unsubscribed_is_invisible. Qed.
 Print Assumptions C02_unsubscribed_event_invisible.
+
+(* L3 refinement (shared by C01, C02, C03): on EVERY history -- any interleaving of submissions
+   (plain, per-line-callback, with callbacks that submit / add / remove listeners), listener changes,
+   disconnect-notification requests, a connection loss, and chunks that each carry one whole
+   well-formed item (reply or event, any wire form) -- that the reference machine of
+   Spec/CtlOracle.v does not flag (causal, nothing after the loss, listeners removed only while
+   registered) and on which no exception escapes the model, the model's per-operation trace IS the
+   reference trace.  The reference machine is the oracle the check evaluates, so on these
+   histories the oracle accepts the model by construction.  Arbitrary chunkings reduce to this by
+   C01_protocol_segmentation_independent / the framing theorems. *)
+Theorem C02_model_is_reference : forall lbehs items ops tr,
+  aligned items ops -> a_good lbehs (a_init items) ops ->
+  run_ok lbehs init ops = Some tr ->
+  run lbehs init ops = fst (a_run lbehs (a_init items) ops).
+Proof. exact model_is_reference. Qed.
+Print Assumptions C02_model_is_reference.
 
 (* non-vacuity: a data-block event while a per-line-callback command is in flight, two listeners,
    the first one raises: both are called, the command's callback sees nothing of the event *)
